@@ -250,6 +250,15 @@ def s_sched_counter(rng, i):
                 glob=f"let xg{i} = mkg{i}();\n", val=f"xg{i}()", sched=True, tag="sched-letrec")
 
 
+def s_shared_upvalue(rng, i):
+    """temporaries that share an upvalue cell with an escaping closure (4 or more of them: known finding F25)"""
+    n = rng.range(1, 6)
+    temps = "".join(f"  let t{i}_{j} = (|x:float| {{ g(x) {fop(rng)} {fnum(rng)} }})({fnum(rng)})\n" for j in range(n))
+    return Snip(defs=f"fn mks{i}(g:(float)->float){{\n  let a = |x:float| {{ g(x) }}\n{temps}  a\n}}\n",
+                body=[f"let sk{i} = {fnum(rng)}", f"let sg{i} = |x:float| {{ x {fop(rng)} sk{i} }}", f"let sa{i} = mks{i}(sg{i})"],
+                val=f"sa{i}({fnum(rng)})", tag="shared-upvalue")
+
+
 def s_plain(rng, i):
     return Snip(defs=f"fn pl{i}(x:float){{ x {fop(rng)} {fnum(rng)} + mem(x) }}\n", val=f"pl{i}({fnum(rng)})", tag="plain")
 
@@ -257,7 +266,8 @@ def s_plain(rng, i):
 SNIPPETS = [s_local_closure, s_local_closure, s_local_counter, s_escape, s_escape_direct, s_escape_nested,
             s_hof_lambda, s_hof_named, s_hof_var, s_compose, s_twice, s_pipe, s_tuple_closure, s_record_closure,
             s_global_closure, s_global_counter, s_global_replicate, s_global_stateful, s_box_list, s_box_list,
-            s_box_tree, s_box_option, s_sched_self, s_sched_lambda_dsp, s_sched_metro, s_sched_counter, s_plain]
+            s_box_tree, s_box_option, s_sched_self, s_sched_lambda_dsp, s_sched_metro, s_sched_counter, s_plain,
+            s_shared_upvalue]
 # snippets that only use objects made during global initialisation: the property must hold with no exception
 STEADY_TAGS = {"global-closure", "box-global", "box-none", "plain", "sched-metro", "sched-letrec", "box-local-unused"}
 
@@ -373,9 +383,44 @@ def histories(path):
 
 
 # known-finding classes (KNOWN_FINDINGS.txt); each maps a leaked object's history to a class or None
-F21, F22, F23, F24 = "F21", "F22", "F23", "F24"
+F21, F22, F23, F24, F25 = "F21", "F22", "F23", "F24", "F25"
 CLASS_OF = {F21: "local-closure-closed-at-scope-exit", F22: "cloned-closure-never-released",
-            F23: "boxed-value-cloned-never-released", F24: "executed-task-closure-still-referenced"}
+            F23: "boxed-value-cloned-never-released", F24: "executed-task-closure-still-referenced",
+            F25: "open-closure-drop-releases-shared-upvalue-refs"}
+
+
+def unowned_releases(path):
+    """Class predicate of F25.  Keys that lose a reference through `drop_closure` of a closure that was never closed:
+    only close_upvalues_by_idx retains the closures found in upvalue cells, so an open closure that reaches 0 and
+    still finds closure-typed Closed cells (shared with a closed sibling) releases references it does not own.
+    Returns (closure keys, heap-wrapper keys) released that way, from the H2 log."""
+    closed = set()
+    stack = []              # open-closure drops in progress: keys of the dropped closures
+    cls, wraps = set(), set()
+    pending_mark = None
+    with open(path) as f:
+        for line in f:
+            p = line.split()
+            if not p or p[0] != "E":
+                continue
+            k, i, v, rc = int(p[1]), int(p[2]), int(p[3]), int(p[4])
+            if k == 0x20:                       # drop_closure(id)
+                pending_mark = (i, v)
+                if stack:
+                    cls.add((i, v))
+                continue
+            if k == 0x16:
+                closed.add((i, v))
+            elif k == 0x12 and pending_mark == (i, v):       # the release of that drop
+                if rc == 0 and (i, v) not in closed:
+                    stack.append((i, v))
+            elif k == 0x13 and stack and stack[-1] == (i, v):  # its free
+                stack.pop()
+            elif k == 0x02 and stack:                          # heap release inside such a drop
+                wraps.add((i, v))
+            if k != 0x20:
+                pending_mark = None
+    return cls, wraps
 
 
 def classify_leak(h):
@@ -653,13 +698,14 @@ def check_programs(ck, exe, drv, evdir, progs, N, EVN, CLS_N, have_h2, known):
             ck.add("programs_harness_crash")
             ck.violation("the VM killed the harness process while running the program (stack overflow / abort)", rep)
             continue
-        if r["st"] == "panic":
-            if r["msg"] in UAF_TAGS:
-                ck.violation(f"use after release: {UAF_TAGS[r['msg']]} (panic at sample {r['at']})", rep)
-            else:
-                ck.add("programs_other_panic")
-            # the event log up to the panic is still replayed below
+        uaf_panic = r["st"] == "panic" and r["msg"] in UAF_TAGS
+        if r["st"] == "panic" and not uaf_panic:
+            ck.add("programs_other_panic")
         m = mon[j] if have_h2 and j < len(mon) else None
+        if uaf_panic and (m is None or not m["status"].startswith("reject")):
+            # a handle panic that the event log does not explain (or no log): use after release
+            ck.violation(f"use after release: {UAF_TAGS[r['msg']]} (panic at sample {r['at']})", rep)
+            continue
         if m is not None:
             ck.add("event_logs_replayed")
             ck.add("events_replayed", r.get("nev", 0))
@@ -671,10 +717,18 @@ def check_programs(ck, exe, drv, evdir, progs, N, EVN, CLS_N, have_h2, known):
                 opn = {0: "alloc", 1: "retain", 2: "release", 3: "free", 4: "use", 5: "probe", 6: "close"}.get(kind & 15, "?")
                 store = "closure" if kind & 0x10 else "heap object"
                 rc = "INVALID" if f[5] == str(INVALID) else f[5]
+        
                 what = (f"verified monitor rejects event #{f[1]} of the real VM: {opn} of {store} ({f[3]},{f[4]}) "
                         f"refcount-after {rc}: "
                         + ("use after release / double release" if rc == "INVALID" or opn in ("retain", "release", "use", "close")
-                           else "free of a referenced object or model/VM disagreement"))
+                           else "free of a referenced object or model/VM disagreement")
+                        + (f"; the VM then panics ({r['msg']}) at sample {r['at']}" if uaf_panic else ""))
+                if rc == "INVALID" and F25 in known:
+                    ucl, uwr = unowned_releases(cases[j]["evfile"])
+                    if (int(f[3]), int(f[4])) in (ucl if kind & 0x10 else uwr):
+                        ck.add("known_" + F25)
+                        ck.known(known[F25], f"{p['name']}: {what}")
+                        continue
                 ck.violation(what, rep)
                 continue
             ck.add("closure_ops_conformance_checked", m.get("ops", 0))
@@ -767,41 +821,46 @@ def check_programs(ck, exe, drv, evdir, progs, N, EVN, CLS_N, have_h2, known):
 
 
 def check_witness(ck, exe, drv, evdir, have_h2):
-    """The witness trace of C12_steady_state_refuted (Heap/Witness.v) is the real VM's event log of closure_open.mmm."""
-    wpath = os.path.join(COQ, "theories", "Heap", "Witness.v")
-    if not os.path.exists(wpath):
-        return
-    src_m = re.search(r"\(\*\s*SOURCE\s*\n(.*?)\nEND SOURCE\s*\*\)", open(wpath).read(), re.S)
-    if not src_m:
-        ck.violation("Heap/Witness.v has no SOURCE block", {"kind": "witness"}, no_input=True)
-        return
-    src = src_m.group(1)
-    text = strip_coq_comments(open(wpath).read())
-    want = [tuple(int(x) for x in m) for m in re.findall(r"\(\s*(\d+)\s*,\s*(\d+)\s*,\s*(\d+)\s*,\s*(\d+)\s*\)", text)]
-    nseg = 4
-    case = {"src": src, "n": nseg - 1, "sched": True, "path": None,
-            "evfile": os.path.join(evdir, "witness.ev") if have_h2 else None, "evn": nseg - 1}
-    r = run_harness(exe, [case])[0]
-    rep = {"kind": "program", "name": "witness", "src": src, "sched": True, "N": 2}
-    if r["st"] != "ok":
-        ck.violation("witness program of C12_steady_state_refuted does not run: " + r["st"], rep)
-        return
-    grow = [tuple(x) for x in r["lens"]]
-    ck.coverage["witness_lens"] = [list(r["main"])] + [list(x) for x in grow]
-    if not (len(grow) >= 3 and grow[0][0] < grow[1][0] < grow[2][0]):
-        # the defect is gone: the refutation witness no longer replays on the real code
-        ck.violation("the witness of C12_steady_state_refuted no longer grows on the real VM (finding fixed? update "
-                     "Props/C12.v and KNOWN_FINDINGS.txt)", rep, no_input=True)
-        return
-    if have_h2:
-        got = []
-        for line in open(case["evfile"]):
-            p = line.split()
-            if p and p[0] == "E":
-                rcv = int(p[4])
-                got.append((int(p[1]), int(p[2]), int(p[3]), rcv))
-        if got != want:
-            ck.violation(f"the event trace in Heap/Witness.v ({len(want)} events) is not the real VM's trace of its SOURCE "
-                         f"program ({len(got)} events)", rep, no_input=True)
-            return
-        ck.coverage["witness_trace_matches_real_vm"] = True
+    """The witness traces of the two refuted clauses (Heap/Witness.v, Heap/WitnessUaf.v) are the real VM's event logs of
+    their SOURCE programs, and the real VM still shows the defect."""
+    for fname, nseg, expect in (("Witness.v", 4, "grows"), ("WitnessUaf.v", 2, "uaf")):
+        wpath = os.path.join(COQ, "theories", "Heap", fname)
+        if not os.path.exists(wpath):
+            ck.violation(f"Heap/{fname} is missing", {"kind": "witness", "file": fname}, no_input=True)
+            continue
+        raw = open(wpath).read()
+        src_m = re.search(r"\(\*\s*SOURCE\s*\n(.*?)\nEND SOURCE\s*\*\)", raw, re.S)
+        if not src_m:
+            ck.violation(f"Heap/{fname} has no SOURCE block", {"kind": "witness", "file": fname}, no_input=True)
+            continue
+        src = src_m.group(1) + "\n"
+        text = strip_coq_comments(raw)
+        want = [tuple(int(x) for x in m) for m in re.findall(r"\(\s*(\d+)\s*,\s*(\d+)\s*,\s*(\d+)\s*,\s*(\d+)\s*\)", text)]
+        evfile = os.path.join(evdir, "witness_" + fname + ".ev") if have_h2 else None
+        case = {"src": src, "n": nseg - 1, "sched": True, "path": None, "evfile": evfile, "evn": nseg - 1}
+        r = run_harness(exe, [case])[0]
+        rep = {"kind": "program", "name": "witness/" + fname, "src": src, "sched": True, "N": 2}
+        if expect == "grows":
+            grow = [tuple(x) for x in r.get("lens", [])]
+            ck.coverage["witness_lens"] = [list(r.get("main", []))] + [list(x) for x in grow]
+            if not (r["st"] == "ok" and len(grow) >= 3 and grow[0][0] < grow[1][0] < grow[2][0]):
+                ck.violation("the witness of C12_steady_state_refuted no longer grows on the real VM (finding fixed? update "
+                             "Props/C12.v and KNOWN_FINDINGS.txt)", rep, no_input=True)
+                continue
+        else:
+            ck.coverage["witness_uaf_result"] = [r["st"], r.get("msg"), r.get("at")]
+            if not (r["st"] == "panic" and r.get("msg") in UAF_TAGS):
+                ck.violation("the witness of C12_no_uaf_refuted no longer ends in a dead-handle panic on the real VM (finding "
+                             "fixed? update Props/C12.v and KNOWN_FINDINGS.txt)", rep, no_input=True)
+                continue
+        if have_h2:
+            got = []
+            for line in open(evfile):
+                p = line.split()
+                if p and p[0] == "E":
+                    got.append((int(p[1]), int(p[2]), int(p[3]), int(p[4])))
+            if got != want:
+                ck.violation(f"the event trace in Heap/{fname} ({len(want)} events) is not the real VM's trace of its SOURCE "
+                             f"program ({len(got)} events)", rep, no_input=True)
+                continue
+            ck.coverage["witness_trace_matches_real_vm_" + expect] = True
